@@ -181,7 +181,16 @@ func (fr *Frame) instr(in ssa.Instruction) {
 	case *ssa.RunDefers:
 		fr.runDefers()
 	case *ssa.Send:
-		fr.countCall("chansend") // channel sends are visible to contracts as the path counter calls(chansend)
+		// channel sends are visible to contracts as the path counter calls(chansend) and as the call site "chansend"
+		// (arg0 the channel, arg1 the value sent)
+		if fr.contract != nil && len(fr.contract.Sites) > 0 {
+			fr.callOrd["chansend"]++
+			fr.curQual = "chansend"
+			fr.countCall("chansend")
+			fr.siteClauses("chansend", fr.callOrd["chansend"], "before", []Val{fr.val(x.Chan), fr.val(x.X)}, nil, Val{}, x.Pos())
+		} else {
+			fr.countCall("chansend")
+		}
 	case *ssa.Select:
 		fr.set(x, vc.freshVal(x.Name(), x.Type(), fr.heap))
 	case *ssa.Panic:
